@@ -108,7 +108,20 @@ pub async fn add_node(
     let mut added_service_data = vec![];
     let mut failed_service_data = vec![];
 
-    let current_node_count = node_registry.nodes.len() as u16;
+    // Number new services after the highest number already recorded, not after the count:
+    // an earlier add whose install failed for some of its services leaves gaps, and counting
+    // would hand out a name and data directory that another service already has.
+    let highest_node_number = node_registry
+        .nodes
+        .iter()
+        .filter_map(|node| {
+            node.service_name
+                .strip_prefix("antnode")
+                .and_then(|number| number.parse::<u16>().ok())
+        })
+        .max()
+        .unwrap_or(0);
+    let current_node_count = std::cmp::max(node_registry.nodes.len() as u16, highest_node_number);
     let target_node_count = current_node_count + options.count.unwrap_or(1);
 
     let mut node_number = current_node_count + 1;
